@@ -107,6 +107,7 @@ class Contract:
         self.defs = dict(kw.pop("defs", {}))  # spec macros: name -> "lambda x: ..."
         self.snapshots = dict(kw.pop("snapshots", {}))  # label -> callee simple name (heap snapshot after its first call)
         self.variant = kw.pop("variant", None)  # termination measure for recursive calls
+        self.emits = kw.pop("emits", None)  # frame for effect events: names this function may emit (None: unspecified)
         self.asserts = list(kw.pop("asserts", []))  # [dict(before=<source prefix>, clause=..., label=...)]
         self.ghost_inputs = dict(kw.pop("ghost_inputs", {}))
         self.native_env = kw.pop("native_env", None)
